@@ -998,6 +998,10 @@ class WCS(object):
         return matrix, count, order
 
     def ExtractSIPCoeffs(self, wcs, prefix):
+        if prefix + "_order" not in wcs and prefix in ("ap", "bp"):
+            # the inverse polynomial is optional, it is fit when needed
+            return np.zeros((1, 1), dtype="f8"), 0, 0
+
         order = _dict_get(wcs, prefix + "_order")
         matrix = np.zeros((order + 1, order + 1), dtype="f8")
         count = 0
